@@ -167,10 +167,16 @@ pub fn diff_items(
                         format!("item {k}: driver error nonce {n} but injected {nonce}"),
                     ));
                 }
+                if let Some(f) = vars_after_error(rf, k, step, asp) {
+                    return Some(f);
+                }
             }
             (RefItem::Err(e), RealItem::ErrRuntime(_)) if !matches!(e, RefErr::Driver { .. }) => {
                 // the properties require *an error item* here; which signal its text names
                 // is not prescribed (several operands may be Z/X at once)
+                if let Some(f) = vars_after_error(rf, k, step, asp) {
+                    return Some(f);
+                }
             }
             (want, got) => {
                 return Some(Finding::new(
@@ -192,6 +198,21 @@ pub fn diff_items(
         }
     } else {
         None
+    }
+}
+
+/// vars() right after a row-level error item: still the variables of the row's statement.
+fn vars_after_error(rf: &RefTrace, k: usize, step: &RealStep, asp: Aspects) -> Option<Finding> {
+    if !asp.vars {
+        return None;
+    }
+    let want = rf.err_vars.get(&k)?;
+    match &step.vars {
+        Some(v) if v == want => None,
+        other => Some(Finding::new(
+            "vars-after-error-item",
+            format!("item {k} (error item of a row): vars() = {:?}, prescribed {:?}", other, want),
+        )),
     }
 }
 
